@@ -348,6 +348,9 @@ pub fn flip_case(fk: FlipKind, ool: bool, r: (u32, u32), l: usize, m: u32) -> (u
                         Some(("rate0-identity", format!("rate 0 flipped genes: {mask:?}")))
                     } else if !ool && r.0 >= r.1 && mask.iter().any(|b| !*b) {
                         Some(("rate1-all-flipped", format!("rate >= 1 left genes unflipped: {mask:?}")))
+                    } else if ool && l == 1 && mask != vec![true] {
+                        // 1/length on a single gene is rate 1
+                        Some(("rate1-all-flipped", format!("a genome of one gene (rate 1/1) was left unflipped: {mask:?}")))
                     } else {
                         None
                     };
